@@ -4,6 +4,9 @@
 -/
 import Hpfeeds.Lemmas.BrokerAuth
 import Hpfeeds.Lemmas.BrokerRec
+import Hpfeeds.Lemmas.BrokerGauge
+import Hpfeeds.Lemmas.BrokerLast
+import Hpfeeds.Lemmas.BrokerTime
 namespace Hpfeeds.Broker
 open Hpfeeds Extracted
 
@@ -52,5 +55,24 @@ theorem recipAuth_runS (cfg : Cfg) (es : List (Store × Event)) : RecipAuth (run
 theorem recInv_runS {cfg : Cfg} {I : Conn → Prop} (hI : ∀ st, RecInv (cfg.withStore st) I)
     (es : List (Store × Event)) : ∀ d y, (runS cfg es).conn d = some y → I y :=
   pres_runS cfg (fun st => recInvPres (hI st)) (by intro d y h; simp [init] at h) es
+
+/-! the remaining broker invariants: the store enters a history only through the row handed to `setAuth`, and
+    each invariant is preserved by `setAuth` for EVERY row (`PresAt.setAuth`), hence under every store -/
+
+/-- C19's gauge invariant -/
+theorem gauge_runS (cfg : Cfg) (es : List (Store × Event)) : Gauge (runS cfg es) :=
+  (pres_runS cfg (fun st => regGaugePres (cfg.withStore st)) ⟨reg_init, gauge_init⟩ es).2
+
+/-- C09 / C19: unregistered ⇒ closing -/
+theorem uc_runS (cfg : Cfg) (es : List (Store × Event)) : UnregClosing (runS cfg es) :=
+  pres_runS cfg (fun st => ucPres (cfg.withStore st)) (by intro d y h; simp [init] at h) es
+
+/-- C08's refinement to the request log -/
+theorem last_runS (cfg : Cfg) (es : List (Store × Event)) : LastInv (runS cfg es) :=
+  (pres_runS cfg (fun st => regLastPres (cfg.withStore st)) ⟨reg_init, by intro d y h; simp [init] at h⟩ es).2
+
+/-- C15's deadline invariant -/
+theorem dl_runS (cfg : Cfg) (es : List (Store × Event)) : DeadlineInv (runS cfg es) :=
+  pres_runS cfg (fun st => dlPres (cfg.withStore st)) (by intro d y h; simp [init] at h) es
 
 end Hpfeeds.Broker
